@@ -11,6 +11,7 @@ From Coq Require Import List Bool NArith ZArith.
 From MV Require Import Base.Bytes Model.Http1Msg Model.Rfc9112 Model.HttpBody.
 From MV Require Import Proofs.HttpBodyBase Proofs.HttpBodyLimit Proofs.HttpBodySteps Proofs.HttpBodyBound.
 From MV Require Import Proofs.HttpBodyForward Proofs.HttpBodyRelay Proofs.HttpBodyWire.
+From MV Require Import Model.H2SendBuf Proofs.H2SendBufFlat.
 Import ListNotations.
 Open Scope Z_scope.
 
@@ -211,7 +212,7 @@ Print Assumptions C07_stream_request_end_to_end.
    with nothing left over *)
 Theorem C07_wire_chunked_decodes :
   forall (o : ref_opts) (pieces : list bytes) (rest : bytes),
-  read_body o BLChunked (wire_chunks send_data pieces ++ rest) = POk (concat pieces, [], rest).
+  read_body o BLChunked (wire_chunks HttpBody.send_data pieces ++ rest) = POk (concat pieces, [], rest).
 Proof. exact wire_chunked_decodes. Qed.
 Print Assumptions C07_wire_chunked_decodes.
 
@@ -237,7 +238,7 @@ Print Assumptions C07_wire_response_stream_decodes.
    are read back as an empty body and the second chunk is left over as the start of another message *)
 Theorem C07_empty_chunk_unrepaired_refuted :
   exists pieces body rest,
-    read_body (mkOpts false false false) BLChunked (wire_chunks send_data_unrepaired pieces) = POk (body, [], rest)
+    read_body (mkOpts false false false) BLChunked (wire_chunks HttpBody.send_data_unrepaired pieces) = POk (body, [], rest)
     /\ body <> concat pieces /\ rest <> [].
 Proof. exact wire_unrepaired_empty_chunk. Qed.
 Print Assumptions C07_empty_chunk_unrepaired_refuted.
@@ -272,6 +273,57 @@ Theorem C07_wire_early_reject :
     /\ flow_error (hs S w') = true /\ flow_live (hs S w') = false.
 Proof. exact wire_early_reject. Qed.
 Print Assumptions C07_wire_early_reject.
+
+(* ---- bodies relayed over an HTTP/2 leg: BufferedH2Connection's per-stream send buffer (Model/H2SendBuf.v) is a
+   queue.  Each stream's traffic is read as tokens: the bytes of every chunk, then an END marker if the chunk carries
+   END_STREAM.  For EVERY sequence of send_data / end_stream / stream and connection WINDOW_UPDATE operations, of
+   any sizes, on any streams, from any state: tokens written ++ tokens still buffered = tokens buffered before ++
+   tokens handed to send_data. *)
+Theorem C07_h2_send_buffer_is_a_queue :
+  forall (ops : list op) (s s' : sb) (fss : list (list frame)) (sid : N),
+  run_ops ops s = Some (s', fss) ->
+  flat (frames_of sid (concat fss)) ++ flat (buf_of sid s')
+  = flat (buf_of sid s) ++ flat (flat_map (uchunks (maxf s) sid) ops).
+Proof. exact send_buffer_is_a_queue. Qed.
+Print Assumptions C07_h2_send_buffer_is_a_queue.
+
+(* the DATA payloads written for a stream are a prefix of the data queued for it, in order; what is missing is
+   exactly what is still buffered (uchunks_send_bytes: cutting over-long frames does not change the bytes) *)
+Theorem C07_h2_written_is_prefix_of_queued :
+  forall (ops : list op) (sids : list N) (w0 c0 mf : Z) (s' : sb) (fss : list (list frame)) (sid : N),
+  run_ops ops (init_sb sids w0 c0 mf) = Some (s', fss) ->
+  bytes_of (frames_of sid (concat fss)) ++ bytes_of (buf_of sid s') = bytes_of (flat_map (uchunks mf sid) ops).
+Proof. exact written_is_prefix_of_queued. Qed.
+Print Assumptions C07_h2_written_is_prefix_of_queued.
+
+Theorem C07_h2_queued_bytes :
+  forall (mf : Z) (k : N) (d : bytes) (es : bool), bytes_of (uchunks mf k (OSend k d es)) = d.
+Proof. exact uchunks_send_bytes. Qed.
+Print Assumptions C07_h2_queued_bytes.
+
+(* END_STREAM last: if END_STREAM is the last thing queued for a stream and a frame carrying END_STREAM has been
+   written, every queued byte was written before it, in order, and nothing is left *)
+Theorem C07_h2_end_stream_is_last :
+  forall (ops : list op) (sids : list N) (w0 c0 mf : Z) (s' : sb) (fss : list (list frame)) (sid : N) (body : bytes),
+  run_ops ops (init_sb sids w0 c0 mf) = Some (s', fss) ->
+  flat (flat_map (uchunks mf sid) ops) = map Some body ++ [None] ->
+  (exists d, In (d, true) (frames_of sid (concat fss))) ->
+  bytes_of (frames_of sid (concat fss)) = body /\ flat (buf_of sid s') = []
+  /\ flat (frames_of sid (concat fss)) = map Some body ++ [None].
+Proof. exact end_stream_is_last. Qed.
+Print Assumptions C07_h2_end_stream_is_last.
+
+(* a concrete run: window 4, two chunks and END_STREAM queued, the window re-opened by 3, 3 and 9: the first chunk is
+   cut twice and its remainder goes back to the HEAD of the buffer *)
+Theorem C07_h2_nonvacuous :
+  exists s fss,
+    run_ops [OSend 1 [x61; x62; x63; x64; x65; x66; x67; x68] false; OSend 1 [x58; x59] false; OEnd 1;
+             OWinS 1 3; OWinS 1 3; OWinS 1 9] (init_sb [1%N] 4 65535 16384) = Some (s, fss)
+    /\ fss = [[Frame 1 [x61; x62; x63; x64] false]; []; []; [Frame 1 [x65; x66; x67] false];
+              [Frame 1 [x68] false; Frame 1 [x58; x59] false]; [Frame 1 [] true]]
+    /\ bufs s = [].
+Proof. exact h2_example. Qed.
+Print Assumptions C07_h2_nonvacuous.
 
 (* ---- the hypotheses are satisfiable on concrete, non-trivial values *)
 Theorem C07_nonvacuous :
